@@ -1,6 +1,6 @@
 (* C11 -- mesh resampling keeps junctions, topology and interface shape.  Statements only. *)
-From Coq Require Import ZArith List Bool Lia.
-From Forsys Require Import Model.PyList Model.Interfaces Model.Resample Proofs.ResampleProofs.
+From Coq Require Import ZArith QArith List Bool Lia.
+From Forsys Require Import Model.PyList Model.Interfaces Model.Resample Proofs.ResampleProofs Proofs.JoinProofs.
 Import ListNotations.
 Open Scope Z_scope.
 
@@ -50,6 +50,20 @@ Theorem C11_resample_cells : forall st narr cid cyc, In (cid, cyc) (cs (resample
 Proof. exact resample_cells. Qed.
 
 (* the float quirk the model reproduces: int((122/14)*7) = 60 although floor(122*7/14) = 61 *)
+(* ---- contraction of a two-point border interface (join_two_vertices) ---- *)
+(* the merged vertex gets an id that is not in use ... *)
+Theorem C11_unused_id_fresh : forall ks, ~ In (get_unused_id ks) ks.
+Proof. exact get_unused_id_fresh. Qed.
+(* ... sits at the midpoint of the two merged vertices (for coordinates of either sign), and replaces them *)
+Theorem C11_join_midpoint : forall st mapper a b st' m' (x0 y0 x1 y1 : Q),
+  has_key (vs st) a = true -> has_key (vs st) b = true -> a <> b -> join_two st mapper a b = Some (st', m') ->
+  assoc (vs st) a = Some (x0, y0) -> assoc (vs st) b = Some (x1, y1) ->
+  exists p, In (get_unused_id (keys (vs st)), p) (vs st') /\ (fst p == (x0 + x1) / 2)%Q /\ (snd p == (y0 + y1) / 2)%Q.
+Proof. exact join_two_midpoint. Qed.
+(* the id handed out can be one that an earlier merge deleted: the root of known finding D7 (stale entries of the id map) *)
+Example C11_unused_id_can_repeat_a_deleted_id : get_unused_id [4; 5] = 2.
+Proof. vm_compute. reflexivity. Qed.
+
 Example C11_float_quirk : float_index 122 14 7 = 60 /\ floor_index 122 14 7 = 61.
 Proof. vm_compute. split; reflexivity. Qed.
 Example C11_example : select_iface float_index 4 [10;11;12;13;14;15;16;17;18;19] = [10;12;15;17;19].
@@ -66,3 +80,5 @@ Print Assumptions C11_select_idempotent_float.
 Print Assumptions C11_ends_survive.
 Print Assumptions C11_resample_vertices.
 Print Assumptions C11_resample_cells.
+Print Assumptions C11_unused_id_fresh.
+Print Assumptions C11_join_midpoint.
